@@ -338,7 +338,13 @@ class FruDataMultiRecord(FruData):
 
     @staticmethod
     def create_from_record_id(data):
-        if data[0] == FruDataMultiRecord.TYPE_OEM_PICMG:
+        # an OEM record is a PICMG record only if its own body (not the
+        # bytes that follow it) starts with the PICMG manufacturer ID and
+        # holds the PICMG record ID and record format version
+        if (data[0] == FruDataMultiRecord.TYPE_OEM_PICMG
+                and len(data) >= 10 and data[2] >= 5
+                and (data[5] | data[6] << 8 | data[7] << 16)
+                == FruPicmgRecord.PICMG_MANUFACTURER_ID):
             return FruPicmgRecord.create_from_record_id(data)
         else:
             return FruDataUnknown(data)
@@ -351,6 +357,7 @@ class FruDataUnknown(FruDataMultiRecord):
 
 
 class FruPicmgRecord(FruDataMultiRecord):
+    PICMG_MANUFACTURER_ID = 0x00315a
     PICMG_RECORD_ID_BACKPLANE_PTP_CONNECTIVITY = 0x04
     PICMG_RECORD_ID_ADDRESS_TABLE = 0x10
     PICMG_RECORD_ID_SHELF_POWER_DISTRIBUTION = 0x11
@@ -396,6 +403,8 @@ class FruPicmgRecord(FruDataMultiRecord):
             raise DecodingError('data too short')
         data = array.array('B', data)
         FruDataMultiRecord._from_data(self, data)
+        if self.length < 5:
+            raise DecodingError('record too short')
         self.manufacturer_id = \
             data[5] | data[6] << 8 | data[7] << 16
         self.picmg_record_type_id = data[8]
@@ -407,6 +416,8 @@ class FruPicmgPowerModuleCapabilityRecord(FruPicmgRecord):
         if len(data) < 12:
             raise DecodingError('data too short')
         FruPicmgRecord._from_data(self, data)
+        if self.length < 7:
+            raise DecodingError('record too short')
         maximum_current_output = data[10] | data[11] << 8
         self.maximum_current_output = float(maximum_current_output/10)
 
